@@ -14,15 +14,19 @@ RULE = ("state = canonical key of the real exchange reached by an operation hist
 ASSUMPTIONS = [
     "amounts 1..3 units, price grid {30,90,100,110,300}, volumes {0,10,40,41.7,1e5}; configurations of "
     "checks/_exch_common.py (fee x liquidity x lending x precision x initial balances x 1-2 pairs)",
-    "interest grid: 3 percentages x 5 periods x 2 minimums x 2 interest symbols x 3 precisions x 5 principals x 4 price paths x ages 0..12; largest-first: every tuple of 2 (quick) / 3 (thorough) loan sizes x 6 proceeds levels x both sides, decided differentially",
+    "interest grid: 3 percentages x 5 periods x (2 minimums x 2 interest symbols with daily steps + 2 sub-second step lengths) x 3 precisions x 5 principals x 4 price paths x ages 0..12; largest-first: every tuple of 2 (quick) / 3 (thorough) loan sizes x 6 proceeds levels x both sides, decided differentially",
     "strategy actions are issued after at least one bar (orders placed before the first event are a separate scenario)",
     "the synchronous driver is validated against the public-API driver on all short histories (conformance scenarios) "
     "and on every reported violation",
 ]
 SPEC = {'conf_quick': [('K10', 3)],
  'conf_thorough': [('K10', 4), ('K4', 3)],
- 'quick': [('K13', 'lend', 4), ('K1', 'lend', 4), ('K10', 'lend', 4), ('K14', 'lend', 4), ('K2', 'std', 3)],
- 'thorough': [('K1', 'std', 4),
+ 'quick': [('K1', 'ar', 6),
+           ('K13', 'lend', 4), ('K1', 'lend', 4), ('K10', 'lend', 4), ('K14', 'lend', 4), ('K2', 'std', 3)],
+ 'thorough': [('K1', 'ar', 8),
+              ('K10', 'ar', 8),
+              ('K13', 'ar', 8),
+              ('K1', 'std', 4),
               ('K2', 'std', 4),
               ('K3', 'std', 4),
               ('K4', 'std', 4),
@@ -69,10 +73,11 @@ def _interest_grid(sc, res):
     exch.install_deterministic_ids()
     _, pct, period, bp, qp = sc
     found = []
-    for minint in (0, 1):
-        for isym in ("USD", "same"):
+    for minint, isym, step_us in ((0, "USD", None), (1, "USD", None), (0, "same", None), (1, "same", None),
+                                  (0, "USD", 750000), (0, "same", 1500001)):
+        if True:
             cfg = dict(lend=dict(req="0", isym=isym, period=period, minint=minint, pct=pct), fee=None, liq=None,
-                       init=(("USD", 100000), ("BTC", 1000)), bp=bp, qp=qp)
+                       init=(("USD", 100000), ("BTC", 1000)), bp=bp, qp=qp, step_us=step_us)
             u = exch.unit(cfg)
             loans = [("USD", "100"), ("USD", "33.33" if qp >= 2 else "33"), ("USD", "7"), ("BTC", str(u)), ("BTC", str(3 * u))]
             for sym, amt in loans:
@@ -103,7 +108,9 @@ def _lf_run(side, sizes, price_k, auto, order=None):
     same timestamp by explicit repay_loan calls in the given order (failures ignored)."""
     import basana as bs
     from basana.backtesting import exchange as ex, lending, liquidity, errors
+    from worlds import exch as _exch
     from worlds.exch import PAIRS, T, call, DAY
+    _exch.set_step({})
     P = PAIRS[0]
     d = bs.backtesting_dispatcher()
     ls = lending.MarginLoans("USD", default_conditions=lending.MarginLoanConditions(
